@@ -890,11 +890,96 @@ func runC20(r *Run) {
 			if taskInfoObj != nil {
 				okDiff, okSigned, okNo, okPow := false, false, false, false
 				var diffObj types.Object
+				// the helper counts only if it is the one-sided difference a \ b: x/avs/types.Difference also returns
+				// the elements of b that are not in a (it appends inside its loop over b)
+				oneSided := false
+				if dv := w.View("x/avs/types", "Difference"); dv != nil {
+					oneSided = true
+					bP := paramName(dv, 1)
+					ast.Inspect(dv.Decl.Body, func(n ast.Node) bool {
+						if rs, isR := n.(*ast.RangeStmt); isR && exprString(rs.X) == bP {
+							for _, c := range allCalls(rs.Body) {
+								if exprString(c.Fun) == "append" {
+									oneSided = false
+								}
+							}
+						}
+						return true
+					})
+				}
 				for _, c := range v.Calls(outer.Body, byName("Difference")) {
-					if len(c.Args) == 2 && lastField(c.Args[0]) == "OptInOperators" && v.objOf(rootIdent(c.Args[0])) == taskInfoObj && v.objOf(c.Args[1]) == listObj {
+					if oneSided && len(c.Args) == 2 && lastField(c.Args[0]) == "OptInOperators" && v.objOf(rootIdent(c.Args[0])) == taskInfoObj && v.objOf(c.Args[1]) == listObj {
 						okDiff = true
 						if as, ok := v.parent(c).(*ast.AssignStmt); ok && len(as.Lhs) == 1 {
 							diffObj = v.objOf(as.Lhs[0])
+						}
+					}
+				}
+				// or, spelt out: for every opted-in operator of the task, append it unless it is a key of the set
+				// built from the signer list
+				if !okDiff {
+					for _, as := range v.assignmentsToField(outer.Body, "NoSignedOperators") {
+						d := v.objOf(as.Rhs[0])
+						if d == nil || v.objOf(rootIdent(as.Lhs[0])) != taskInfoObj {
+							continue
+						}
+						nApp, good := 0, true
+						ast.Inspect(outer.Body, func(n ast.Node) bool {
+							a, isAs := n.(*ast.AssignStmt)
+							if !isAs || len(a.Lhs) != 1 || len(a.Rhs) != 1 || v.objOf(a.Lhs[0]) != d {
+								return true
+							}
+							c, isC := stripParens(a.Rhs[0]).(*ast.CallExpr)
+							if !isC || exprString(c.Fun) != "append" || len(c.Args) != 2 {
+								return true
+							}
+							nApp++
+							lp, isL := v.innermostLoop(a).(*ast.RangeStmt)
+							if !isL || lastField(lp.X) != "OptInOperators" || v.objOf(rootIdent(lp.X)) != taskInfoObj || lp.Value == nil || v.objOf(c.Args[1]) != v.objOf(lp.Value) {
+								good = false
+								return true
+							}
+							// under exactly "not a member of the signer set"
+							member := false
+							for _, f := range v.FactsAt(a, false) {
+								if f.At == nil || f.At.Pos() < lp.Pos() {
+									continue
+								}
+								id, isID := stripParens(f.Atom).(*ast.Ident)
+								if !isID || f.Truth {
+									good = false
+									continue
+								}
+								for _, df := range v.defsOf(v.objOf(id)) {
+									ix, isIx := stripParens(df).(*ast.IndexExpr)
+									if !isIx || v.objOf(ix.Index) != v.objOf(lp.Value) {
+										continue
+									}
+									// the set is filled from the signer list
+									setObj := v.objOf(ix.X)
+									ast.Inspect(outer.Body, func(m ast.Node) bool {
+										fill, isF := m.(*ast.AssignStmt)
+										if !isF || len(fill.Lhs) != 1 {
+											return true
+										}
+										fx, isFx := stripParens(fill.Lhs[0]).(*ast.IndexExpr)
+										if !isFx || v.objOf(fx.X) != setObj {
+											return true
+										}
+										if fl, isFL := v.innermostLoop(fill).(*ast.RangeStmt); isFL && v.objOf(fl.X) == listObj && fl.Value != nil && v.objOf(fx.Index) == v.objOf(fl.Value) {
+											member = true
+										}
+										return true
+									})
+								}
+							}
+							if !member {
+								good = false
+							}
+							return true
+						})
+						if nApp == 1 && good && !v.nestedConditionally(as, outer.Body) {
+							okDiff, okNo = true, true
 						}
 					}
 				}
@@ -904,7 +989,7 @@ func runC20(r *Run) {
 					}
 				}
 				for _, as := range v.assignmentsToField(outer.Body, "NoSignedOperators") {
-					if v.objOf(rootIdent(as.Lhs[0])) == taskInfoObj && (v.objOf(as.Rhs[0]) == diffObj && diffObj != nil || strings.HasPrefix(v.cs(as.Rhs[0]), "types.Difference(")) && !v.nestedConditionally(as, outer.Body) {
+					if v.objOf(rootIdent(as.Lhs[0])) == taskInfoObj && (v.objOf(as.Rhs[0]) == diffObj && diffObj != nil || (oneSided && strings.HasPrefix(v.cs(as.Rhs[0]), "types.Difference("))) && !v.nestedConditionally(as, outer.Body) {
 						okNo = true
 					}
 				}
@@ -913,7 +998,7 @@ func runC20(r *Run) {
 						okPow = true
 					}
 				}
-				r.check(okDiff && okNo, "C20.R6", "hook|non-signers", v.pos(outer), "non-signers = opted-in operators of the task minus the signers", "NoSignedOperators is not Difference(taskInfo.OptInOperators, signers)")
+				r.check(okDiff && okNo, "C20.R6", "hook|non-signers", v.pos(outer), "non-signers = opted-in operators of the task that are not among the signers", "NoSignedOperators is not built from taskInfo.OptInOperators minus the signers")
 				r.check(okSigned, "C20.R6", "hook|signers-stored", v.pos(outer), "the signer list is stored on the task", "taskInfo.SignedOperators is not unconditionally assigned the signer list")
 				r.check(okPow, "C20.R6", "hook|total-power", v.pos(outer), "the task's total power is the AVS's value", "taskInfo.TaskTotalPower is not assigned from GetAVSUSDValue")
 				okTI := resolvesToCall(v, ast.NewIdent("_"), "", nil) // placeholder false
